@@ -476,7 +476,7 @@ Lemma props_main k2 s3 : Forall byte s3 -> props_nobit (Z.to_nat v) s3 ->
     prefix_of m2 m' /\
     ((st = SBDF_OK /\ c_so l' = VCell L 0 /\ releasable bv o h h' m' /\ props_end (Z.to_nat v) s3 = Some s' /\ Forall byte s')
      \/ (st < 0 /\ c_so l' = so /\ exists j, h' = h ++ nones j)) /\
-    (k2 < 0 -> st = props_st (Z.to_nat v) s3).
+    (k2 < 0 -> st = props_st (Z.to_nat v) s3 /\ (st = SBDF_OK -> k' = k2)).
 Proof.
   intros Hs3 NBP.
   pose proof (capacity_upper v ltac:(lia)) as (Hc1 & Hc8). unfold int_max in Hc8.
@@ -629,14 +629,14 @@ Proof.
   { intros kk sxx. pose proof (DGx h [] m' kk sxx eq_refl ltac:(lia)) as D. rewrite !app_nil_r in D. exact D. }
   destruct R7 as [(-> & -> & -> & PE & PBy)|(-> & Hneg)].
   - (* every property was read: the slice is handed out *)
-    exists SBDF_OK. eexists (Build_crl _ _ _ _ _ _ _ _ _ _). do 4 eexists. split; [|split; [exact Pf|split; [left|intros X; apply R8; unfold kB, kA, next_fail; destruct (0 <? k2) eqn:E0; [lia|]; rewrite E0; exact X]]].
+    exists SBDF_OK. eexists (Build_crl _ _ _ _ _ _ _ _ _ _). do 4 eexists. split; [|split; [exact Pf|split; [left|intros X; assert (EkB : kB = k2) by (unfold kB, kA, next_fail; destruct (0 <? k2) eqn:E0; [lia|]; rewrite E0; reflexivity); destruct (R8 ltac:(lia)) as (Q1 & Q2); split; [exact Q1|intros _; rewrite (Q2 eq_refl); exact EkB]]]].
     + eexists. split; [exact BODY|]. unfold tl_ok, cs_tail. cbn [fbody prog_sbdf_cs_read]. unl.
       eapply bsE_seq; [eapply bsE_if; [evl; reflexivity|reflexivity|]; eapply bsE_expr; evl; reflexivity|].
       eapply bsE_return. evl. reflexivity.
     + split; [reflexivity|]. split; [reflexivity|]. split; [|split; [exact PE|exact PBy]].
       exists HNEW. split; [reflexivity|]. split; [unfold HNEW; cbn [List.length]; lia|exact DGx].
   - (* a property could not be read: everything is released *)
-    exists st. eexists (Build_crl _ _ _ _ _ _ _ _ _ _). do 4 eexists. split; [|split; [exact Pf|split; [right|intros X; apply R8; unfold kB, kA, next_fail; destruct (0 <? k2) eqn:E0; [lia|]; rewrite E0; exact X]]].
+    exists st. eexists (Build_crl _ _ _ _ _ _ _ _ _ _). do 4 eexists. split; [|split; [exact Pf|split; [right|intros X; assert (EkB : kB = k2) by (unfold kB, kA, next_fail; destruct (0 <? k2) eqn:E0; [lia|]; rewrite E0; reflexivity); destruct (R8 ltac:(lia)) as (Q1 & Q2); split; [exact Q1|intros Y; unfold SBDF_OK in Y; lia]]]].
     + eexists. split; [exact BODY|]. unfold tl_ok.
       apply (tail_fail st (VInt 1) (VInt cap) (VInt i') a2' a3' k' s' _ m' _ Hneg (DG k' s')).
     + split; [exact Hneg|]. split; [reflexivity|]. eexists. reflexivity.
@@ -669,10 +669,10 @@ Proof.
   intros k2 s3 m2 blk newb v VR Hv Hs3 NBP.
   destruct (Z_le_gt_dec v 134217727) as [Hsmall|Hbig].
   - destruct (props_main so h v blk newb m2 VR ltac:(lia) k2 s3 Hs3 NBP) as (st & l' & k' & s' & h' & m' & (sB & B1 & B2) & Pf & Out & PST).
-    exists st, l', k', s', h', m'. split; [exists sB; split; [exact B1|exact B2]|]. split; [exact Pf|]. split; [exact Out|]. intros X. replace (134217727 <? v) with false by lia. apply PST. exact X.
+    exists st, l', k', s', h', m'. split; [exists sB; split; [exact B1|exact B2]|]. split; [exact Pf|]. split; [exact Out|]. intros X. replace (134217727 <? v) with false by lia. exact (PST X).
   - destruct (props_big so h v blk newb m2 k2 s3 VR ltac:(lia)) as (sB & l' & h' & B1 & B2 & Ho & Hj).
     exists SBDF_ERROR_OUT_OF_MEMORY, l', k2, s3, h', m2. split; [exists sB; split; [exact B1|exact B2]|]. split; [exists []; now rewrite app_nil_r|].
-    split; [right; split; [reflexivity|]; split; [exact Ho|exact Hj]|]. intros _. replace (134217727 <? v) with true by lia. reflexivity.
+    split; [right; split; [reflexivity|]; split; [exact Ho|exact Hj]|]. intros _. replace (134217727 <? v) with true by lia. split; [reflexivity|intros X; cbv in X; discriminate X].
 Qed.
 End Props.
 
@@ -696,7 +696,7 @@ Theorem cs_read_full_source rf rp fo po k sx m h : Forall byte sx ->
 Proof.
   intros Hs NB NBP.
   destruct (cs_read_gen (VInt 0) [] rf rp fo po VUndef k sx h m Hs NB NBP (props_ok (VInt 0) [] rf rp fo po VUndef h)) as (st & l' & k' & s' & h' & m' & B & Pf & Out & CST).
-  destruct (bsE_sound _ _ _ _ B) as (f0 & F). exists f0. intros f Hf. exists st. eexists. split; [apply F; exact Hf|]. split; [exact Pf|]. split; [|exact CST].
+  destruct (bsE_sound _ _ _ _ B) as (f0 & F). exists f0. intros f Hf. exists st. eexists. split; [apply F; exact Hf|]. split; [exact Pf|]. split; [|exact (fun H => proj1 (CST H))].
   destruct l'. cbv [ImpFactsCsRead.c_so] in Out.
   destruct Out as [(-> & -> & (hnew & -> & Hn & D) & s1 & va & s2 & v & s3 & E1 & E2 & E3 & E4 & E5 & _)|(Hn & -> & j & ->)].
   - left. split; [reflexivity|]. split; [reflexivity|]. split; [exists s1, va, s2, v, s3, s'; repeat split; assumption|].
